@@ -92,7 +92,7 @@ def run(chk: Check, repo: Repo) -> None:
         chk.ob("shortcut-iff-same-transcoder", proc.site(), used == want, f"decoded_data: {label}: value source {sorted(used)}; reference {sorted(want)}", key=f"process|{label}")
     # identity comparison, not equality
     tests = [n.ast for n in cfg.nodes if n.kind == "test" and "transcoder" in ast.unparse(n.ast)]
-    chk.ob("transcoder-identity", proc.site(), len(tests) == 1 and isinstance(tests[0], ast.Compare) and isinstance(tests[0].ops[0], ast.Is) and ast.unparse(tests[0].comparators[0]) == "self.dpt_class", f"transcoder test: {[ast.unparse(t) for t in tests]}", key="transcoder-identity")
+    chk.ob("transcoder-identity", proc.site(), len(tests) == 1 and isinstance(tests[0], ast.Compare) and isinstance(tests[0].ops[0], ast.Is) and "self.dpt_class" in (ast.unparse(tests[0].comparators[0]), ast.unparse(tests[0].left)), f"transcoder test: {[ast.unparse(t) for t in tests]}", key="transcoder-identity")
     # generic from_knx is dpt_class.from_knx(payload)
     gen = repo.func(RV, "RemoteValue.from_knx")
     chk.unit(gen)
